@@ -112,7 +112,8 @@ Definition ex_pops : list pop :=
   [ mk_pop 0 (Some 1%nat) (OpRelateList empty_nl "a" 5) 0;
     mk_pop 1 None (OpRemove ["d"]) 1;
     mk_pop 1 (Some 0%nat) (OpAdd empty_nl) 1;
-    mk_pop 0 (Some 1%nat) (OpUnion empty_nl) 2 ].
+    mk_pop 0 (Some 1%nat) (OpUnion empty_nl) 2;
+    mk_pop 0 (Some 0%nat) (OpRelateList empty_nl "a" 5) 0 ].   (* a list related at one of its own nodes *)
 
 Definition ex_pool : list nodelist := [ex_l; ex_l2; empty_nl].
 Definition ex_sizes : list nat := [4; 4; 4]%nat.
